@@ -25,7 +25,9 @@ const (
 var c01Sinks = []string{"text", "vtext", "attr", "attr2", "bound", "vbind", "boundm", "class", "style", "boundstatic",
 	// the {{ }} text sink under parents the HTML parser treats specially (raw text, RCDATA, foreign content, table/select scoping)
 	"text@noscript", "text@xmp", "text@iframe", "text@noembed", "text@noframes", "text@textarea", "text@title", "text@pre",
-	"text@option", "text@td", "text@svgtext", "text@button", "text@h1", "text@a", "text@li", "text@code", "vtext@textarea", "vtext@noscript"}
+	"text@option", "text@td", "text@svgtext", "text@button", "text@h1", "text@a", "text@li", "text@code", "vtext@textarea", "vtext@noscript",
+	// bound class/style merged with a static class/style that itself contains a mustache
+	"classi", "stylei"}
 
 // c01RawTextTags: the parser does not decode character references inside these
 // (scripting enabled), so the literal value cannot be read back; skeleton, spill
@@ -116,6 +118,10 @@ func c01SinkEl(sink, nbh, e, extra string) (el string, sinkAttr string, lDec, rD
 		return open + ` class="st" :class="` + e + `">k</p>`, "class", "st ", "", true
 	case "style":
 		return open + ` :style="` + e + `">k</p>`, "style", "", "", true
+	case "classi":
+		return open + ` class="st {{ w }}" :class="` + e + `">k</p>`, "class", "st W ", "", true
+	case "stylei":
+		return open + ` style="margin:{{ w }}" :style="` + e + `">k</p>`, "style", "", "", false
 	case "boundstatic":
 		return open + ` title="st" :title="` + e + `">k</p>`, "title", "", "", true
 	}
@@ -385,7 +391,7 @@ func (p *c01) Exec(ctx core.Ctx, cc any) core.Obs {
 		if strings.ContainsAny(h, "\r\x00") {
 			continue
 		}
-		boundSink := c.Sink == "bound" || c.Sink == "vbind" || c.Sink == "boundm" || c.Sink == "class" || c.Sink == "style" || c.Sink == "boundstatic"
+		boundSink := c.Sink == "bound" || c.Sink == "vbind" || c.Sink == "boundm" || c.Sink == "class" || c.Sink == "style" || c.Sink == "boundstatic" || c.Sink == "classi" || c.Sink == "stylei"
 		if boundSink && c01Falsy(h) {
 			o.Cell("skipped/falsy-on-bound-attr")
 			continue // a falsy bound value legitimately omits the attribute (C14)
